@@ -2,6 +2,8 @@ package chain
 
 import (
 	"fmt"
+	"github.com/MinterTeam/minter-go-node/coreV2/transaction"
+	"github.com/MinterTeam/minter-go-node/rlp"
 	"math/big"
 	"reflect"
 	"sort"
@@ -221,6 +223,20 @@ type ProbeResult struct {
 	Tags   map[string]string
 	Height int64
 	Index  int
+	// Variant runs, on one more fresh node over the same pre-block disk, the block with the
+	// preceding transactions and then alt instead of this transaction (through CheckTx first when
+	// check is set). It returns the DeliverTx response of alt and the state after that block.
+	Variant func(alt []byte, check bool) *VariantResult
+}
+
+// VariantResult is the outcome of a counterfactual variant of one transaction.
+type VariantResult struct {
+	Resp      abci.ResponseDeliverTx
+	Tags      map[string]string
+	After     *Snap
+	CheckCode uint32
+	Err       *CallErr // panic in CheckTx / DeliverTx / EndBlock / Commit of the variant block
+	Phase     string
 }
 
 // Prober is implemented by oracles that judge per-transaction counterfactual diffs.
@@ -233,7 +249,7 @@ type Prober interface {
 // and including T, the other with the transactions before T only. Block-level effects cancel.
 type MonProbe struct {
 	NopMonitor
-	Oracles []Prober
+	Oracles     []Prober
 	MaxPerBlock int
 }
 
@@ -297,6 +313,52 @@ func (m *MonProbe) AfterBlock(w *World, b *BlockCtx) {
 					pr.Tags[string(a.Key)] = string(a.Value)
 				}
 			}
+			idx := i - 1
+			pr.Variant = func(alt []byte, check bool) *VariantResult {
+				vd := before.Clone()
+				vn, cerr := OpenNode(vd, w.Sc.Node)
+				if cerr != nil {
+					return nil
+				}
+				defer vn.Release()
+				vr := &VariantResult{Tags: map[string]string{}}
+				req := b.Req
+				req.Txs = append(append([][]byte{}, b.Req.Txs[:idx]...), alt)
+				hook := &TxHook{}
+				if check {
+					hook.Before = func(k int, tx []byte) {
+						if k == idx && vr.Err == nil {
+							rc, cerr := vn.Check(tx)
+							vr.CheckCode, vr.Err = rc.Code, cerr
+							if cerr != nil {
+								vr.Phase = "CheckTx"
+							}
+						}
+					}
+				}
+				res := vn.ExecBlock(req, hook)
+				if vr.Err != nil {
+					return vr
+				}
+				if res.Err != nil {
+					vr.Err, vr.Phase = res.Err, res.Phase
+					return vr
+				}
+				if res.Stopped || len(res.Deliver) <= idx {
+					return nil
+				}
+				vr.Resp = res.Deliver[idx]
+				for _, e := range vr.Resp.Events {
+					for _, a := range e.Attributes {
+						vr.Tags[string(a.Key)] = string(a.Value)
+					}
+				}
+				if ex, err := ColdExport(vd, uint64(b.Height)); err == nil {
+					vr.After = NewSnap(uint64(b.Height), ex)
+				}
+				w.Probe("probe_variant")
+				return vr
+			}
 			w.Probe("probe_tx")
 			for _, o := range m.Oracles {
 				o.Judge(w, b, pr)
@@ -307,4 +369,33 @@ func (m *MonProbe) AfterBlock(w *World, b *BlockCtx) {
 		}
 		prev = cur
 	}
+}
+
+// Resign re-signs a single-signature transaction of one of the harness's own accounts after
+// changing it (gas price, limits ...): the counterfactual variants of C15 / C27 / C13. Returns nil when
+// the transaction is not a plainly signed one.
+func Resign(m *TxMeta, nAcct int, mutate func(tx *transaction.Transaction) bool) []byte {
+	if m.Garbage || m.Malleated || m.Dup || !m.SigOK || m.SigMode != 0 || len(m.Signers) != 1 || m.Signers[0] != m.Sender {
+		return nil
+	}
+	var tx transaction.Transaction
+	if err := rlp.DecodeBytes(m.Bytes, &tx); err != nil || tx.SignatureType != transaction.SigTypeSingle {
+		return nil
+	}
+	for i := 0; i < nAcct+3; i++ {
+		if Acct(i).Addr == m.Sender {
+			if !mutate(&tx) {
+				return nil
+			}
+			if err := tx.Sign(Acct(i).Priv); err != nil {
+				return nil
+			}
+			out, err := rlp.EncodeToBytes(tx)
+			if err != nil {
+				return nil
+			}
+			return out
+		}
+	}
+	return nil
 }
